@@ -80,17 +80,22 @@ Proof. exact lexer_tok_in_lex. Qed.
 Print Assumptions cssparse_lexer_tok_in_lex.
 
 (* C08 (partial): a stylesheet whose lexer token list is a sequence of rulesets
-       ws? ident ws? '{' ( ws? ident ws? ':' (ws? value-token)+ ws? ';' )* ws? '}'          followed by  ws?
-   (ws: a Whitespace token; value-token: any token but whitespace, comment, '{', '}', ';', with brackets and
-   function parentheses balanced inside the value - toks_ok / lv_after; no comments)
-   yields exactly, for every rule in order, BeginRuleset with Values() = [selector], one Declaration per
-   declaration with the lower-cased property name and Values() = expected_vals: the value tokens in order with a
-   single space token exactly where the source has whitespace between two value tokens neither of which is one of
-   the punctuation bytes , / : ! =  (the whitespace rule of the property for values; whitespace before the first
-   and after the last value token, around ':' and ';', '{' and '}' is dropped), EndRuleset - and then the
-   end-of-input report; no parse error is reported.
-   MISSING: at-rules, custom properties, nested rulesets, comments, CDO/CDC, multi-token selectors and their
-   whitespace rule (covered by the well-formed-stylesheet oracle only). *)
+       (ws? selector-token)+ ws? '{' ( ws? ident ws? ':' (ws? value-token)+ ws? ';' )* ws? '}'      followed by  ws?
+   (ws: a Whitespace token; selector-/value-token: any token but whitespace, comment, '{', '}', ';', with brackets
+   and function parentheses balanced - toks_ok / lv_after; the first selector token is none of CDO, CDC, at-keyword,
+   custom-property name - sel_first; no comments)
+   yields exactly, for every rule in order,
+   - BeginRuleset with Values() = expected_sel: the selector tokens in order with a single space token exactly where
+     the source has whitespace between two tokens neither of which is a combinator  , > + ~  and that are not inside
+     an attribute selector [ ] (whitespace before the first token and before '{' is dropped);
+   - one Declaration per declaration with the lower-cased property name and Values() = expected_vals: the value
+     tokens in order with a single space token exactly where the source has whitespace between two value tokens
+     neither of which is one of the punctuation bytes  , / : ! =  (whitespace before the first and after the last
+     value token, around ':' and ';', '{' and '}' is dropped);
+   - EndRuleset;
+   and then the end-of-input report; no parse error is reported.
+   MISSING: at-rules, custom properties, nested rulesets, comments, CDO/CDC (covered by the well-formed-stylesheet
+   oracle only). *)
 Theorem cssparse_wellformed_partial : forall d rules w,
   css_lex d = LexDone (concat (map rule_toks rules) ++ optws w) -> Forall rule_ok rules ->
   exists tr, parse_run (length (concat (map rule_units rules)) + 1) (new_parser d false) = POk tr /\
